@@ -171,6 +171,51 @@ class StepGen:
         sl = r.choice(self.slices)
         return ReplaceAroundStep(f, t, gf, gt, sl, r.randint(0, max(0, sl.size)), r.random() < 0.3)
 
+    def cross_sibling_delete(self, doc):
+        """A plain deletion (or replacement by a small slice) whose two ends sit at the same depth inside two different
+        children of one node, one or more levels down: applying it joins nodes on several levels at once."""
+        from prosemirror.model import Slice
+        from prosemirror.transform import ReplaceStep
+        r = self.rng
+        cands = []
+
+        def visit(node, pos, parent, index):
+            if not node.is_leaf and not node.is_text:
+                kids = [k for k in range(node.child_count) if not node.child(k).is_leaf and not node.child(k).is_text]
+                if len(kids) >= 2:
+                    cands.append((pos, node, kids))
+        visit(doc, -1, None, 0)
+        doc.descendants(visit)
+        if not cands:
+            return None
+        pos, node, kids = r.choice(cands)
+        i, j = sorted(r.sample(kids, 2))
+        if r.random() < 0.6:
+            j = i + 1 if (i + 1) in kids else j
+
+        def descend(k, levels, last):
+            at = pos + 1 + sum(node.child(x).node_size for x in range(k))
+            cur = node.child(k)
+            depth = 0
+            while True:
+                depth += 1
+                inner = [x for x in range(cur.child_count) if not cur.child(x).is_leaf and not cur.child(x).is_text]
+                if depth >= levels or not inner:
+                    idx = r.randint(0, cur.child_count)
+                    if cur.is_textblock:
+                        return at + 1 + r.randint(0, cur.content.size), depth
+                    return at + 1 + sum(cur.child(x).node_size for x in range(idx)), depth
+                x = (inner[-1] if last else inner[0]) if r.random() < 0.7 else r.choice(inner)
+                at = at + 1 + sum(cur.child(y).node_size for y in range(x))
+                cur = cur.child(x)
+        levels = r.choice([1, 2, 2, 3])
+        f, df = descend(i, levels, True)
+        t, dt = descend(j, df, False)
+        if df != dt or f > t:
+            return None
+        sl = Slice.empty if r.random() < 0.8 or not self.slices else r.choice(self.slices)
+        return ReplaceStep(f, t, sl, r.random() < 0.1)
+
     def around_balanced_open_gap(self, doc):
         """A replace-around step whose gap is *balanced but not flat*: it starts inside one child of a node and ends
         inside a later child, at the same depth (the cut-off boundary nodes may be invalid by themselves - a list
